@@ -2,6 +2,7 @@ package graphicsstate
 
 import (
 	"fmt"
+	"math"
 
 	"github.com/tsawler/tabula/model"
 )
@@ -300,12 +301,12 @@ func (gs *GraphicsState) GetFontSize() float64 {
 func (gs *GraphicsState) GetEffectiveFontSize() float64 {
 	baseFontSize := gs.Text.FontSize
 
-	// The text matrix is [a b c d e f]
-	// For vertical scaling (typical font size), we use element d (index 3)
-	// For horizontal scaling, we use element a (index 0)
+	// The text matrix is [a b c d e f]: the text-space unit vectors map to
+	// (a, b) and (c, d). Their lengths are the horizontal and vertical scale
+	// factors, also when the matrix rotates the text (a = d = 0 for 90 degrees).
 	// We take the maximum to handle both cases
-	verticalScale := abs(gs.Text.TextMatrix[3])   // d component
-	horizontalScale := abs(gs.Text.TextMatrix[0]) // a component
+	verticalScale := math.Hypot(gs.Text.TextMatrix[2], gs.Text.TextMatrix[3])
+	horizontalScale := math.Hypot(gs.Text.TextMatrix[0], gs.Text.TextMatrix[1])
 
 	// Use the larger of the two scales
 	scale := verticalScale
